@@ -28,6 +28,35 @@ CFG_FLAGS = {
 BASE_FLAGS = "-Zmir-opt-level=0 -Zalways-encode-mir -Awarnings -Coverflow-checks=on"
 
 
+REFERENCE_CONSTS = ("multiboot2_common::ALIGNMENT", "multiboot2_header::header::MAGIC", "multiboot2::MAGIC")
+
+
+def _moved_free_fns(fns_by_crate):
+    """{path in this tree: path in the inventory} for free functions (no impl, no trait, not closures) whose inventory path is gone
+    while exactly one function of the same crate and the same name exists elsewhere and is not in the inventory"""
+    try:
+        with open(os.path.join(VERIF, "mb2rules", "inventory.json")) as fh:
+            inv = set(json.load(fh)["functions"])
+    except Exception:
+        return {}
+    out = {}
+    for c, fns in fns_by_crate.items():
+        free = {}
+        for k, v in fns.items():
+            if v.get("impl_self_path") or v.get("impl_trait") or v.get("closure") or "{closure" in k or v.get("def_kind") not in (None, "Fn"):
+                continue
+            free[v.get("path") or k] = v
+        inv_free = {x.split("|||", 1)[1] for x in inv if x.startswith(c + "|||")}
+        missing = [p for p in inv_free if p not in free and "::" in p]
+        extra = [p for p in free if p not in inv_free]
+        for m in missing:
+            name = m.rsplit("::", 1)[1]
+            cands = [e for e in extra if e.rsplit("::", 1)[1] == name and e.split("::", 1)[0] == m.split("::", 1)[0]]
+            if len(cands) == 1 and cands[0] not in out:
+                out[cands[0]] = m
+    return out
+
+
 class InfraError(Exception):
     pass
 
@@ -110,6 +139,10 @@ def facts_dir(cfg):
     d = os.path.join(CACHE, h, cfg)
     done = os.path.join(d, "DONE")
     if os.path.exists(done):
+        try:
+            os.utime(os.path.join(CACHE, h), None)      # mark the entry as in use (pruning goes by age since last use)
+        except OSError:
+            pass
         return d, h, True
     os.makedirs(os.path.join(CACHE, h), exist_ok=True)
     lock = open(os.path.join(CACHE, h, cfg + ".lock"), "w")
@@ -133,8 +166,9 @@ def facts_dir(cfg):
         lock.close()
 
 
-def _prune_cache(keep, max_entries=int(os.environ.get("MB2_CACHE_MAX", "12")), min_age_s=1800):
-    """drop the oldest cache entries; never one that was touched in the last 30 minutes (it may belong to a concurrent run)"""
+def _prune_cache(keep, max_entries=int(os.environ.get("MB2_CACHE_MAX", "12")), min_age_s=3 * 3600):
+    """drop the least recently used cache entries; never one that was used in the last three hours (it may belong to a
+    concurrent run)"""
     try:
         now = time.time()
         ents = [(os.path.getmtime(os.path.join(CACHE, e)), e) for e in os.listdir(CACHE)
@@ -158,9 +192,19 @@ class Facts:
         d, h, cached = facts_dir(cfg)
         self.dir, self.tree_hash, self.cached = d, h, cached
         self.crates = {}
+        texts = {}
         for c in CRATES:
             with open(os.path.join(d, c + ".json")) as fh:
-                self.crates[c] = json.load(fh)
+                texts[c] = fh.read()
+        # a free function of the reference tree that was moved to another module of its crate (and, if public, re-exported) is
+        # still that function: its new path is rewritten to the path the rules and the inventory know it by
+        moved = _moved_free_fns({c: json.loads(texts[c])["fns"] for c in CRATES})
+        for c in CRATES:
+            t = texts[c]
+            for new_p, old_p in moved.items():
+                t = t.replace(new_p, old_p)
+            self.crates[c] = json.loads(t)
+        self.moved = moved
         self.rustc = self.crates["multiboot2"]["rustc"]
         self.target = self.crates["multiboot2"]["target"]
         self.features = {c: self.crates[c]["features"] for c in CRATES}
@@ -190,6 +234,13 @@ class Facts:
                 self.impls.append(im)
             self.statics += j["statics"]
             self.roots[c] = j["roots"]
+        # constants the rules name by path: a constant moved to another module of its crate is found by its name when unique
+        for ref in REFERENCE_CONSTS:
+            if ref not in self.consts:
+                crate_, name_ = ref.split("::", 1)[0], ref.rsplit("::", 1)[1]
+                cands = [k for k in self.consts if k.split("::", 1)[0] == crate_ and k.rsplit("::", 1)[1] == name_ and "{" not in k and "<" not in k]
+                if len(cands) == 1:
+                    self.consts[ref] = self.consts[cands[0]]
         self.helper_insts = {}
         self.std_insts = {}
         for c in CRATES:
